@@ -375,3 +375,192 @@ func TestC12Shutdown(t *testing.T) {
 }
 
 var _ = sort.Strings
+
+// ---- a request that keeps a repository held for long (finding 29)
+
+const c12hRule = "TestC12Holder: one client keeps a repository held (manifest PUT whose body stalls for 1.2 s) with grace 5-50 ms so that cache pruning and collections of that repository start while it is held; 2-5 other requests " +
+	"(tag lists, blob HEAD, upload POST; same and other repositories) are sent with contexts cancelled after 1-30 ms; oracle = each returns within 700 ms of its cancellation, the holder completes, Close returns; " +
+	"non-trivial = a bystander on another repository ran while the holder had been held for more than 1.1 x grace"
+
+func c12HolderProperty(t *rapid.T, st *Stats) {
+	dirStore := rapid.Bool().Draw(t, "dirStore")
+	if dirStore && avoid("C12/held-repository-blocks-store") {
+		st.Exclude("C12/held-repository-blocks-store")
+		dirStore = false
+	}
+	grace := time.Duration(rapid.SampledFrom([]int{5, 20, 50}).Draw(t, "graceMs")) * time.Millisecond
+	freq := time.Duration(rapid.SampledFrom([]int{2, 10, 1000}).Draw(t, "gcFrequencyMs")) * time.Millisecond
+	type by struct {
+		kind, repo string
+		startMs    int
+		cancelMs   int
+	}
+	bys := []by{}
+	for i, n := 0, rapid.IntRange(2, 5).Draw(t, "nBystanders"); i < n; i++ {
+		bys = append(bys, by{
+			kind:     rapid.SampledFrom([]string{"tags", "head-blob", "post-upload"}).Draw(t, "request"),
+			repo:     rapid.SampledFrom([]string{"held", "other", "other", "third/n"}).Draw(t, "repo"),
+			startMs:  rapid.SampledFrom([]int{0, 30, 80, 150, 300, 600}).Draw(t, "startMs"),
+			cancelMs: rapid.SampledFrom([]int{1, 5, 30}).Draw(t, "cancelAfterMs"),
+		})
+	}
+	trace := []string{fmt.Sprintf("dir=%v grace=%v gcFrequency=%v; holder: PUT /v2/held/manifests/slow, body stalls 1.2 s", dirStore, grace, freq)}
+	for _, b := range bys {
+		trace = append(trace, fmt.Sprintf("bystander at +%d ms: %s on %s, cancelled after %d ms", b.startMs, b.kind, b.repo, b.cancelMs))
+	}
+	fail := func(key, f string, a ...any) { Fail(t, st, key, fmt.Sprintf(f, a...), trace, nil) }
+	e, _ := newEnv(t, st, dirStore, func(c *config.Config) {
+		c.Storage.GC.Frequency = freq
+		c.Storage.GC.GracePeriod = grace
+	})
+	defer func() {
+		if e.root != "" {
+			go func(r string) { time.Sleep(time.Second); removeAll(r) }(e.root)
+		}
+	}()
+	u, err := newCUniverse(e.srv, "held")
+	if err != nil {
+		t.Skip("setup failed")
+	}
+	for _, rn := range []string{"other", "third/n"} {
+		if _, err := newCUniverse(e.srv, rn); err != nil {
+			t.Skip("setup failed")
+		}
+	}
+	// the holder
+	body := u.body(0)
+	pr, pw := io.Pipe()
+	holderDone := make(chan int, 1)
+	t0 := time.Now()
+	go func() {
+		_, _ = pw.Write(body[:len(body)/2])
+		time.Sleep(1200 * time.Millisecond)
+		_, _ = pw.Write(body[len(body)/2:])
+		_ = pw.Close()
+	}()
+	go func() {
+		req := httptest.NewRequest("PUT", "/v2/held/manifests/slow", pr)
+		req.Header.Set("Content-Type", mtImage)
+		req.ContentLength = -1
+		w := httptest.NewRecorder()
+		e.srv.ServeHTTP(w, req)
+		holderDone <- w.Code
+	}()
+	var mu sync.Mutex
+	late := []string{}
+	nontrivial := false
+	var wg sync.WaitGroup
+	for _, b := range bys {
+		wg.Add(1)
+		go func(b by) {
+			defer wg.Done()
+			time.Sleep(time.Duration(b.startMs) * time.Millisecond)
+			ctx, cancel := context.WithCancel(context.Background())
+			var req *http.Request
+			switch b.kind {
+			case "tags":
+				req = httptest.NewRequest("GET", "/v2/"+b.repo+"/tags/list", nil)
+			case "head-blob":
+				req = httptest.NewRequest("HEAD", "/v2/"+b.repo+"/blobs/"+u.cfg, nil)
+			default:
+				req = httptest.NewRequest("POST", "/v2/"+b.repo+"/blobs/uploads/", nil)
+			}
+			req = req.WithContext(ctx)
+			w := httptest.NewRecorder()
+			done := make(chan struct{})
+			go func() { e.srv.ServeHTTP(w, req); close(done) }()
+			time.Sleep(time.Duration(b.cancelMs) * time.Millisecond)
+			cancel()
+			tc := time.Now()
+			<-done
+			took := time.Since(tc)
+			mu.Lock()
+			if b.repo != "held" && time.Duration(b.startMs)*time.Millisecond > grace*11/10 {
+				nontrivial = true
+			}
+			if took > 700*time.Millisecond {
+				late = append(late, fmt.Sprintf("%s on %s (sent %d ms after the holder started) returned %v after its context was cancelled (status %d)", b.kind, b.repo, b.startMs, took.Round(time.Millisecond), w.Code))
+			}
+			mu.Unlock()
+		}(b)
+	}
+	wg.Wait()
+	var code int
+	select {
+	case code = <-holderDone:
+	case <-time.After(20 * time.Second):
+		fail("stall", "the stalled PUT did not complete within 20 s of its body being delivered\n%s", olaregStacks())
+	}
+	trace = append(trace, fmt.Sprintf("holder answered %d after %v", code, time.Since(t0).Round(time.Millisecond)))
+	closed := make(chan struct{})
+	go func() { _ = e.srv.Close(); close(closed) }()
+	select {
+	case <-closed:
+	case <-time.After(20 * time.Second):
+		fail("close-hangs", "Close did not return within 20 s\n%s", olaregStacks())
+	}
+	cl := []string{"mem"}
+	if dirStore {
+		cl[0] = "dir"
+	}
+	st.CaseSample(trace, trace, nontrivial, cl...)
+	if len(late) > 0 {
+		key := "cancel-not-honoured"
+		if dirStore {
+			key = "held-repository-blocks-store"
+		}
+		fail(key, "while one request kept repository \"held\" open: %s", strings.Join(late, "; "))
+	}
+}
+
+func TestC12Holder(t *testing.T) {
+	st := newStats("TestC12Holder", "C12", c12hRule)
+	rapid.Check(t, func(rt *rapid.T) { c12HolderProperty(rt, st) })
+}
+
+// TestKF_C12_HeldRepositoryBlocksStore reproduces finding 29 on the directory store.
+func TestKF_C12_HeldRepositoryBlocksStore(t *testing.T) {
+	st := newStats("TestKF_C12_HeldRepositoryBlocksStore", "C12", "reproducer")
+	root := mkTemp("kf12")
+	defer func() { go func() { time.Sleep(time.Second); removeAll(root) }() }()
+	conf := baseConf(config.StoreDir, root)
+	conf.Storage.GC.GracePeriod = 20 * time.Millisecond
+	conf.Storage.GC.Frequency = time.Second
+	srv := olareg.New(conf)
+	defer srv.Close()
+	u, err := newCUniverse(srv, "held")
+	if err != nil {
+		t.Fatalf("setup: %v", err)
+	}
+	if _, err := newCUniverse(srv, "other"); err != nil {
+		t.Fatalf("setup: %v", err)
+	}
+	body := u.body(0)
+	pr, pw := io.Pipe()
+	go func() {
+		_, _ = pw.Write(body[:len(body)/2])
+		time.Sleep(1200 * time.Millisecond)
+		_, _ = pw.Write(body[len(body)/2:])
+		_ = pw.Close()
+	}()
+	holder := make(chan struct{})
+	go func() {
+		req := httptest.NewRequest("PUT", "/v2/held/manifests/slow", pr)
+		req.Header.Set("Content-Type", mtImage)
+		req.ContentLength = -1
+		srv.ServeHTTP(httptest.NewRecorder(), req)
+		close(holder)
+	}()
+	time.Sleep(150 * time.Millisecond)
+	ctx, cancel := context.WithTimeout(context.Background(), 20*time.Millisecond)
+	defer cancel()
+	t0 := time.Now()
+	w := httptest.NewRecorder()
+	srv.ServeHTTP(w, httptest.NewRequest("GET", "/v2/other/tags/list", nil).WithContext(ctx))
+	took := time.Since(t0)
+	<-holder
+	if took > 700*time.Millisecond {
+		Fail(kfT{t}, st, "held-repository-blocks-store", fmt.Sprintf("GET /v2/other/tags/list with a 20 ms deadline returned after %v (status %d) while a stalled PUT kept repository \"held\" open", took.Round(time.Millisecond), w.Code),
+			[]string{"dir store, grace 20 ms", "PUT /v2/held/manifests/slow: body stalls for 1.2 s (the handler holds the repository)", "+150 ms: GET /v2/other/tags/list with a context that expires after 20 ms", "the GET returns only when the PUT has finished"}, nil)
+	}
+}
